@@ -349,7 +349,7 @@ func AnalyzeLocks(body *ast.BlockStmt, entry LockSet, opts *FlowOpts, visit Visi
 		for _, n := range b.Nodes {
 			w.node(n, nil)
 		}
-		if opts.OnExit != nil && len(b.Succs) == 0 {
+		if opts.OnExit != nil && len(b.Succs) == 0 && !(b.Kind == cfg.KindSelectAfterCase && len(b.Nodes) == 0) {
 			if len(b.Nodes) > 0 {
 				last := b.Nodes[len(b.Nodes)-1]
 				if rs, ok := last.(*ast.ReturnStmt); ok {
